@@ -17,6 +17,7 @@ type Binding struct {
 	Nilable     bool // Go result type can be nil
 	ElemNilable bool // for lists: element type can be nil
 	Directive   bool // field carries @guard
+	Stamp       bool // field carries @stamp after (= outside of) @guard
 }
 
 // Env is what the reference executor needs.
@@ -282,6 +283,23 @@ func scan(v any) string {
 }
 
 func (e *exec) field(objType, objID string, fd *ast.FieldDefinition, f *ast.Field, sel ast.SelectionSet, path string) *parsers.J {
+	v := e.fieldInner(objType, objID, fd, f, sel, path)
+	// the last directive listed is the outermost: @stamp sees whatever @guard and the resolver
+	// produced and marks a non-null scalar
+	if e.env.Binding(objType, fd.Name).Stamp && v != nil {
+		switch v.K {
+		case parsers.Num:
+			var n int64
+			fmt.Sscan(v.N, &n)
+			return parsers.NewNum(n + StampInt)
+		case parsers.Str:
+			return parsers.NewStr(v.S + StampStr)
+		}
+	}
+	return v
+}
+
+func (e *exec) fieldInner(objType, objID string, fd *ast.FieldDefinition, f *ast.Field, sel ast.SelectionSet, path string) *parsers.J {
 	b := e.env.Binding(objType, fd.Name)
 	p := e.env.Plan
 	if !b.Resolver || e.argFault(f) == "" {
